@@ -139,6 +139,7 @@ pub fn judge_nonmember(c: &NonMember) -> Verdict {
         "junk after quoted" => "non-member: junk after quoted string",
         "glued primaries" => "non-member: glued primaries",
         "format junk" => "non-member: bad format directive",
+        "operator glued to punctuation" => "non-member: operator word glued to punctuation",
         _ => "non-member: other",
     };
     match parse_tree(&c.text) {
@@ -408,6 +409,23 @@ pub fn run(ctx: &Ctx) -> Report {
                     st.record(&v, stable_hash(&c), false, || nonmember_json(&c));
                 }
             }
+        }
+    }
+    // an operator word is only an operator when a blank or the end of the input follows it: glued to
+    // punctuation it is no word of the vocabulary at all
+    for op in ["-a", "-and", "-o", "-or"] {
+        for (text, vp) in [
+            (format!("-true {op}( -false )"), true),
+            (format!("-true {op}(-false)"), true),
+            (format!("-true {op}!-false"), true),
+            (format!("-true {op}! -false"), true),
+            (format!("-true {op}, -false"), true),
+            (format!("( -true {op}) -false"), true),
+            (format!("-name x {op}( -name y ) -print"), true),
+        ] {
+            let c = NonMember { class: "operator glued to punctuation".into(), text, unglued: None, valid_prefix: vp };
+            let v = judge_nonmember(&c);
+            st.record(&v, stable_hash(&c), true, || nonmember_json(&c));
         }
     }
     // all 315 single symbolic clauses x prefixes x quoting x wraps
